@@ -314,21 +314,44 @@ def run(prop, tier, seed):
     mono_ok = all(e2 <= max(e1, 1e-13) * 1.0000001 for (_, e1), (_, e2) in zip(errs, errs[1:]))
     recs.append({"k": "law", "law": "duffy-convergence-not-monotone", "dev": 0 if mono_ok else 2_000_000})
     recs.append({"k": "law", "law": "duffy-does-not-converge", "dev": dev(errs[-1][1], 0.0, 1e-12)})
-    # judge
-    work = tempfile.mkdtemp(prefix="sch.", dir=tlc._scratch())
-    path = os.path.join(work, "trace.json")
-    with open(path, "w") as fh:
-        json.dump(recs, fh)
-    jres = tlc.run_tlc("MCTraceSchemes", CFG_T, workers=1, timeout=3000, env={"TRACE_FILE": path},
-                       aux_files={"MCTraceSchemes.tla": MC % ("MCTraceSchemes", "TraceSchemes", btla)})
-    shutil.rmtree(work, ignore_errors=True)
-    mm = re.search(r'<<\s*"BAD",\s*(\{.*?\}),\s*"MISSING",\s*(\d+)\s*>>', jres.output, flags=re.S)
-    if not mm:
-        ctx.machinery_error("TraceSchemes: " + (jres.machinery_error or jres.output[-400:]))
-    else:
+    # judge: one TLC run per group of base rules (the judge's `seen` set grows with the trace; a group carries the records of
+    # its own terms and is checked for completeness against the term language over its own base rules)
+    def base_of(t):
+        while t.get("op") != "base":
+            t = t["a"] if "a" in t else t["arg"]
+        return (t["fam"], tuple(t["key"]))
+    groups = {}
+    order_b = [(b["fam"], tuple(b["key"])) for b in bases]
+    per = 3 if len(bases) > 6 else len(bases)
+    gid = {bk: i // per for i, bk in enumerate(order_b)}
+    for i, r in enumerate(recs):
+        g = gid[base_of(r["term"])] if isinstance(r.get("term"), dict) else 0
+        groups.setdefault(g, []).append(i)
+
+    def judge_group(g):
+        idx = groups[g]
+        gb = [b for b in bases if gid[(b["fam"], tuple(b["key"]))] == g]
+        work = tempfile.mkdtemp(prefix="sch.", dir=tlc._scratch())
+        path = os.path.join(work, "trace.json")
+        with open(path, "w") as fh:
+            json.dump([recs[i] for i in idx], fh)
+        jr = tlc.run_tlc("MCTraceSchemes", CFG_T, workers=1, timeout=3000, env={"TRACE_FILE": path},
+                         aux_files={"MCTraceSchemes.tla": MC % ("MCTraceSchemes", "TraceSchemes", base_tla(gb))})
+        shutil.rmtree(work, ignore_errors=True)
+        return g, idx, jr
+    from concurrent.futures import ThreadPoolExecutor
+    with ThreadPoolExecutor(max_workers=12) as ex:
+        judged = list(ex.map(judge_group, sorted(groups)))
+    jres = judged[0][2]
+    jstats = {"groups": len(judged), "generated": sum(j.generated or 0 for _, _, j in judged), "wall_s_max": max(j.stats().get("wall_s", 0) for _, _, j in judged)}
+    for g, idx, jr in judged:
+        mm = re.search(r'<<\s*"BAD",\s*(\{.*?\}),\s*"MISSING",\s*(\d+)\s*>>', jr.output, flags=re.S)
+        if not mm:
+            ctx.machinery_error("TraceSchemes (group %d): %s" % (g, jr.machinery_error or jr.output[-400:]))
+            continue
         for tpl in sorted(tlc.parse_value(mm.group(1))):
             l, clause = tpl[0], tpl[1]
-            r = recs[l - 1]
+            r = recs[idx[l - 1]]
             if clause.startswith("d:"):
                 ctx.spec_drift("%s for %r" % (clause, r))
                 continue
@@ -339,7 +362,7 @@ def run(prop, tier, seed):
             ctx.violation("%s:%s:%s" % (clause, op, inner.get("op", "") if isinstance(inner, dict) else ""),
                           "%s: %r" % (clause, {k: v for k, v in r.items()}), r)
         if int(mm.group(2)) > 0:
-            ctx.machinery_error("%s (term, monomial) pairs never exercised" % mm.group(2))
+            ctx.machinery_error("%s (term, monomial) pairs never exercised (group %d)" % (mm.group(2), g))
     # self-test
     r2 = [dict(r) for r in recs[:30]]
     k = next(i for i, r in enumerate(r2) if r["k"] == "mono")
@@ -356,7 +379,7 @@ def run(prop, tier, seed):
                "rule": "all terms of Schemes.tla over %d base rules (%s), each on a random box with side lengths in [1e-4, 1e3]; all monomials up to the calculus' degree "
                        "(symmetrised monomials for the symmetric Duffy variants); laws: mirror twice, symmetric vs non-symmetric Duffy, convergence on log|x-y|; distinct_nontrivial = terms"
                        % (len(bases), "subset" if quick else "every tabulated unweighted rule"),
-               "samples": [recs[0], recs[len(recs) // 2]], "exhaustive": not quick, "model": model, "judge_tlc": jres.stats(),
+               "samples": [recs[0], recs[len(recs) // 2]], "exhaustive": not quick, "model": model, "judge_tlc": jstats,
                "worst_dev_millionths_by_constructor": worst, "duffy_log_errors": errs, "binding_selftest": st_self}
     ctx.assumptions = ["exact monomial integrals by rational arithmetic; error scaled by the measure times sup|monomial| on the box (conditioning of far-off boxes)",
                        "tolerance 1e-12, 1e-10 for 3-D Duffy terms"]
